@@ -30,7 +30,7 @@ REPO = Path(os.environ.get("VERIF_REPO", "/repo"))
 FLAG = {"GOOD": ".good", "UNKNOWN": ".unknown", "SUSPECT": ".suspect", "FAIL": ".fail", "MISSING": ".missing"}
 FUNCS = {"gross_range_test": "ioos_qc/qartod.py", "spike_test": "ioos_qc/qartod.py", "rate_of_change_test": "ioos_qc/qartod.py",
          "location_test": "ioos_qc/qartod.py", "density_inversion_test": "ioos_qc/qartod.py",
-         "flat_line_test": "ioos_qc/qartod.py", "climatology_test": "ioos_qc/qartod.py", "attenuated_signal_test": "ioos_qc/qartod.py", "save": "ioos_qc/stores.py", "collect_results_dict": "ioos_qc/results.py", "qartod_compare": "ioos_qc/qartod.py", "speed_test": "ioos_qc/argo.py", "pressure_increasing_test": "ioos_qc/argo.py", "valid_range_test": "ioos_qc/axds.py"}
+         "flat_line_test": "ioos_qc/qartod.py", "climatology_test": "ioos_qc/qartod.py", "attenuated_signal_test": "ioos_qc/qartod.py", "save": "ioos_qc/stores.py", "collect_results_dict": "ioos_qc/results.py", "Call_run": "ioos_qc/config.py", "qartod_compare": "ioos_qc/qartod.py", "speed_test": "ioos_qc/argo.py", "pressure_increasing_test": "ioos_qc/argo.py", "valid_range_test": "ioos_qc/axds.py"}
 
 
 class Untranslatable(Exception):
@@ -1087,7 +1087,57 @@ def translate_collect_dict():
     return "def collect_results_dict (results : List CR) : DState := Id.run do\n" + "\n".join(out) + "\n"
 
 
+# ------------------------------------------------------------------------------------------------------------------------------
+# config.Call.run: merge of the configured and the passed keywords, filter by the signature, try / except around the call
+# ------------------------------------------------------------------------------------------------------------------------------
+def translate_call_run():
+    tree = ast.parse((REPO / "ioos_qc/config.py").read_text())
+    cls = next(n for n in tree.body if isinstance(n, ast.ClassDef) and n.name == "Call")
+    fn = next(n for n in cls.body if isinstance(n, ast.FunctionDef) and n.name == "run")
+    if [a.arg for a in fn.args.args] != ["self"] or fn.args.kwarg is None or fn.args.kwarg.arg != "passedkwargs":
+        raise Untranslatable("signature of Call.run")
+    body = [b for b in fn.body if not (isinstance(b, ast.Expr) and isinstance(b.value, ast.Constant))]
+    out = []
+    for st in body:
+        t = src(st)
+        if t == "results = []":
+            out.append("  let results : List β := []")
+        elif t == "testkwargs = deepcopy(passedkwargs)":
+            out.append("  let testkwargs := passedkwargs")
+        elif t == "testkwargs = odict({**self.kwargs, **testkwargs})":
+            out.append("  let testkwargs := dictMerge self_kwargs testkwargs")
+        elif t == "sig = signature(self.func)":
+            continue                                   # with the next statement: `valid_keywords` is a parameter of the model
+        elif t == "valid_keywords = [p.name for p in sig.parameters.values() if p.kind == p.POSITIONAL_OR_KEYWORD]":
+            continue
+        elif t == "testkwargs = {k: v for k, v in testkwargs.items() if k in valid_keywords}":
+            out.append("  let testkwargs := testkwargs.filter fun kv => valid_keywords.contains kv.1")
+        elif isinstance(st, ast.Try) and len(st.handlers) == 1 and src(st.handlers[0].type) == "Exception" and not st.orelse and not st.finalbody:
+            tb = [src(b) for b in st.body]
+            want = "results.append(CallResult(package=self.module, test=self.method, function=self.func, results=self.func(**testkwargs)))"
+            hb = st.handlers[0].body
+            if tb != [want] or not all(isinstance(b, ast.Expr) and is_call(b.value, "L.error") for b in hb):
+                raise Untranslatable(f"Call.run try block: {tb}")
+            # the handler only logs; a log message built from plain attributes and the exception cannot raise
+            for b in hb:
+                for n in ast.walk(b):
+                    if isinstance(n, (ast.Subscript, ast.Call)) and not is_call(n, "L.error"):
+                        raise Untranslatable("Call.run: the except handler computes something besides the log message")
+            out += ["  match self_func testkwargs with", "  | .ok r => results ++ [r]", "  | .error _ => results"]
+        elif t == "return results":
+            continue
+        else:
+            raise Untranslatable(f"Call.run: {t[:70]}")
+    if src(body[-1]) != "return results" or not out[-1].startswith("  | .error"):
+        raise Untranslatable("Call.run: shape")
+    head = ("def Call_run {β : Type} (self_kwargs : KwArgs) (passedkwargs : KwArgs) (valid_keywords : List String) "
+            "(self_func : KwArgs → Except Err β) : List β :=")
+    return head + "\n" + "\n".join(out) + "\n"
+
+
 def translate(name: str) -> str:
+    if name == "Call_run":
+        return translate_call_run()
     if name == "collect_results_dict":
         return translate_collect_dict()
     if name == "save":
